@@ -3,6 +3,7 @@ SPECIFICATION Spec
 CONSTANTS
   Order = "stripLast"
   D1Fixed = TRUE
+  HopSafe = TRUE
   CLNormalised = TRUE
   BigBodies = FALSE
   Families = {"mini"}
